@@ -343,6 +343,13 @@ def urange(t):
         l1, h1 = urange(t.args[1])
         l2, h2 = urange(t.args[2])
         lo, hi = max(lo, min(l1, l2)), min(hi, max(h1, h2))
+        c = t.args[0]
+        if c.op == "ult":
+            p, q = c.args
+            if t.args[1] is p and t.args[2] is q:      # p < q ? p : q  == min(p, q)
+                hi = min(hi, h1, h2)
+            elif t.args[1] is q and t.args[2] is p:    # p < q ? q : p  == max(p, q)
+                lo = max(lo, l1, l2)
     elif t.op == "select":
         lo, hi = max(lo, min(t.args[0])), min(hi, max(t.args[0]))
     elif t.op == "urem" and t.args[1].op == "k" and t.args[1].args[0] > 0:
